@@ -113,9 +113,15 @@ pub(crate) fn parse_instruction(input: ParserInput) -> InternalParserResult<Inst
                 Command::Pulse => command::parse_pulse(remainder, false),
                 Command::Capture => command::parse_capture(remainder, false),
                 Command::RawCapture => command::parse_raw_capture(remainder, false),
-                _ => todo!(),
+                _ => Err(nom::Err::Failure(InternalParseError::from_kind(
+                    &input[..1],
+                    ParserErrorKind::NotACommandOrGate,
+                ))),
             },
-            _ => todo!(),
+            _ => Err(nom::Err::Failure(InternalParseError::from_kind(
+                &input[..1],
+                ParserErrorKind::NotACommandOrGate,
+            ))),
         },
         Some((Token::Identifier(_), _)) | Some((Token::Modifier(_), _)) => gate::parse_gate(input),
         Some((_, _)) => Err(nom::Err::Failure(InternalParseError::from_kind(
